@@ -132,10 +132,13 @@ class Utils:
     def compare_versions(a: str, b: str) -> int:
         '''Compares two version strings.  Dot-separated decimal versions are compared numerically, component by component (so that 10.0 > 9.9); anything else falls back to string comparison.  Returns -1, 0, or 1.'''
         if re.match(r'^\d+(\.\d+)*$', a) and re.match(r'^\d+(\.\d+)*$', b):
-            # Compare each component as a number without converting it (a peer may send thousands of digits, which int() refuses): without
-            # leading zeros, a longer digit string is the larger number and equally long ones compare like text.
+            # Compare each component as a number.  A peer may send thousands of digits, which int() refuses to convert, so the comparison is
+            # done on canonical digit strings: without leading zeros, a longer string is the larger number and equally long ones compare like text.
             def _num(x: str) -> Tuple[int, str]:
-                y = x.lstrip('0')
+                try:
+                    y = str(int(x))
+                except ValueError:  # More digits than int() converts.
+                    y = x.strip().lstrip('0') or '0'
                 return (len(y), y)
             an = [_num(x) for x in a.split('.')]
             bn = [_num(x) for x in b.split('.')]
